@@ -434,3 +434,14 @@ Theorem C03_set_random_draws_full_order :
   /\ current w' = current w /\ pstate w' = pstate w /\ seed w' = seed w + 1.
 Proof. exact set_random_draws_full_order. Qed.
 Print Assumptions C03_set_random_draws_full_order.
+
+(* every tracklist change (any edit, consume, a restored tracklist: they all go through
+   _increase_version) redraws the order: a complete new order over the tracklist as it is now
+   when random is on, an empty one otherwise *)
+Theorem C03_tracklist_change_redraws_order :
+  forall shuf w r w',
+  increase_version shuf w = (r, w') ->
+  r = Ok tt /\ World.tl w' = World.tl w
+  /\ shuffled w' = (if random w then shuf (seed w) (World.tl w) else []).
+Proof. exact tracklist_change_redraws. Qed.
+Print Assumptions C03_tracklist_change_redraws_order.
